@@ -81,6 +81,8 @@ pub struct Pair {
     pub disp: BufferedDisplay,
     pub rec: Recorder,
     pub sources: Vec<IntSource>,
+    /// additional requests visible at the next poll (devices modelled by the caller, e.g. the timer)
+    pub extra: Vec<(u8, u8)>,
 }
 
 pub fn build(m: &Machine) -> Pair {
@@ -106,7 +108,7 @@ pub fn build(m: &Machine) -> Pair {
     sim.write_mem(SSP_PORT, Word::new_init(m.saved_sp), omni).expect("set saved SP"); rf.saved_sp = m.saved_sp; rf.set_mem(SSP_PORT, m.saved_sp);
     if m.kb_ie && m.kb.is_some() { sim.write_mem(KBSR, Word::new_init(0x4000), omni).expect("set IE"); rf.kb_ie = true; rf.set_mem(KBSR, 0x4000); }
     sim.observer.clear();
-    Pair { sim, rf, kb, disp, rec, sources: vec![] }
+    Pair { sim, rf, kb, disp, rec, sources: vec![], extra: vec![] }
 }
 
 impl Pair {
@@ -124,6 +126,7 @@ impl Pair {
             let will = st.pending + st.raise_at.iter().filter(|x| **x == st.poll).count() as u32;
             if will > 0 { v.push((s.vect, s.prio.min(7))); }
         }
+        v.extend(self.extra.iter().copied());
         v
     }
     pub fn saved_sp(&mut self) -> u16 { self.sim.read_mem(SSP_PORT, MemAccessCtx::omnipotent()).map(|w| w.get()).unwrap_or(0xDEAD) }
